@@ -29,9 +29,12 @@
 EXTENDS Integers, Sequences, FiniteSets, TLC, Json
 
 CONSTANTS K, MaxT, Types,
+          Lvls,       \* counter levels of the inputs (set of integers): every input holds its histograms at one level,
+                      \* increasing inside the input; a merged stream that steps DOWN a level is a counter reset
           EmitMode    \* "cfg" | "none"
 
-VARIABLES ins,      \* [1..K -> Seq(chunk)], chunk = Seq([t, ty, srcs])
+VARIABLES ins,      \* [1..K -> Seq(chunk)], chunk = Seq([t, ty, lv, srcs])
+          lv,       \* [1..K -> Lvls] counter level of every input
           slot,     \* Build cursor
           started,  \* c.h # nil
           heap,     \* set of [id, rest] : chunk iterators, rest[1] = At()
@@ -40,7 +43,7 @@ VARIABLES ins,      \* [1..K -> Seq(chunk)], chunk = Seq([t, ty, srcs])
           done,     \* Next returned false
           ref       \* the reference prediction for `ins` (set by the last Build step)
 
-vars == <<ins, slot, started, heap, nid, out, done, ref>>
+vars == <<ins, lv, slot, started, heap, nid, out, done, ref>>
 
 N     == MaxT + 1
 Ids   == 1..K
@@ -53,7 +56,7 @@ Last(q) == q[Len(q)]
 ChMin(c) == c[1].t
 ChMax(c) == c[Len(c)].t
 \* "perfect duplicate": same MinTime, MaxTime and bytes
-Same(a, b) == Len(a) = Len(b) /\ \A k \in 1..Len(a) : a[k].t = b[k].t /\ a[k].ty = b[k].ty
+Same(a, b) == Len(a) = Len(b) /\ \A k \in 1..Len(a) : a[k].t = b[k].t /\ a[k].ty = b[k].ty /\ a[k].lv = b[k].lv
 
 -----------------------------------------------------------------------------
 (* REFERENCE: computed once, when the inputs are complete, into `ref`.        *)
@@ -111,7 +114,7 @@ Absorb(h, oMax, prev, ov) ==
              : x \in MinIts(h) }
 
 \* c.mergeFunc(overlapping..., curr): the vertical series merge; at an equal timestamp the
-\* sample of any one chunk wins - only its type matters for the re-encoding below
+\* sample of any one chunk wins - only its type and counter level matter for the re-encoding below
 AtT(cs, t) == UNION {{s \in SamplesOf(cs[j]) : s.t = t} : j \in 1..Len(cs)}
 RECURSIVE MergedSeqs(_, _)
 MergedSeqs(cs, t) ==
@@ -119,18 +122,21 @@ MergedSeqs(cs, t) ==
   ELSE LET S == AtT(cs, t)
            R == MergedSeqs(cs, t + 1)
        IN IF S = {} THEN R
-          ELSE {<<[t |-> t, ty |-> ty, srcs |-> UNION {s.srcs : s \in {x \in S : x.ty = ty}}]>> \o r
-                  : ty \in {s.ty : s \in S}, r \in R}
+          ELSE {<<[t |-> t, ty |-> tl[1], lv |-> tl[2], srcs |-> UNION {s.srcs : s \in {x \in S : x.ty = tl[1] /\ x.lv = tl[2]}}]>> \o r
+                  : tl \in {<<s.ty, s.lv>> : s \in S}, r \in R}
 
-\* NewSeriesToChunkEncoder: a new chunk whenever the sample type changes
+\* NewSeriesToChunkEncoder: a new chunk whenever the sample type changes, and whenever the histogram
+\* appender hands back a fresh chunk without recoding: a counter reset (the merged stream steps down a level)
+Cuts(a, b) == a.ty # b.ty \/ (a.ty # "f" /\ b.lv < a.lv)
 RECURSIVE Encode(_)
 Encode(m) == IF m = <<>> THEN <<>>
-             ELSE LET n == CHOOSE k \in 1..Len(m) : /\ \A j \in 1..k : m[j].ty = m[1].ty
-                                                    /\ (k = Len(m) \/ m[k + 1].ty # m[1].ty)
+             ELSE LET n == CHOOSE k \in 1..Len(m) : /\ \A j \in 1..(k - 1) : ~Cuts(m[j], m[j + 1])
+                                                    /\ (k = Len(m) \/ Cuts(m[k], m[k + 1]))
                   IN <<SubSeq(m, 1, n)>> \o Encode(SubSeq(m, n + 1, Len(m)))
 
 -----------------------------------------------------------------------------
 Init == /\ ins = [i \in Ids |-> <<>>]
+        /\ lv \in [Ids -> Lvls]
         /\ slot = 0 /\ started = FALSE /\ heap = {} /\ nid = K + 1 /\ out = <<>> /\ done = FALSE
         /\ ref = [merged |-> <<>>, al |-> <<>>, groups |-> <<>>]
 
@@ -140,7 +146,7 @@ Build ==
   /\ ~Built
   /\ LET i == (slot \div N) + 1
          t == slot % N
-         s(ty) == [t |-> t, ty |-> ty, srcs |-> {i}]
+         s(ty) == [t |-> t, ty |-> ty, lv |-> lv[i], srcs |-> {i}]
      IN \/ UNCHANGED ins
         \/ \E ty \in Types :
              \/ ins' = [ins EXCEPT ![i] = Append(@, <<s(ty)>>)]                      \* cut
@@ -148,7 +154,7 @@ Build ==
                 /\ ins' = [ins EXCEPT ![i][Len(ins[i])] = Append(@, s(ty))]
   /\ slot' = slot + 1
   /\ ref' = IF slot' = K * N THEN RefOf(ins') ELSE ref
-  /\ UNCHANGED <<started, heap, nid, out, done>>
+  /\ UNCHANGED <<lv, started, heap, nid, out, done>>
 
 \* compactChunkIterator.Next
 CNext ==
@@ -171,7 +177,7 @@ CNext ==
                               /\ out' = Append(out, enc[1])
                               /\ heap' = r.h \cup (IF Len(enc) > 1 THEN {[id |-> nid, rest |-> Tail(enc)]} ELSE {})
                               /\ nid' = nid + 1
-  /\ UNCHANGED <<ins, slot, ref>>
+  /\ UNCHANGED <<ins, lv, slot, ref>>
 
 Next == Build \/ CNext
 Spec == Init /\ [][Next]_vars
@@ -210,10 +216,10 @@ Emit == \/ EmitMode # "cfg"
         \/ ~(slot' = K * N /\ slot # slot')
         \/ PrintT("@@TR " \o ToJson([ins |-> [i \in Ids |-> [j \in 1..Len(ins'[i]) |->
                                                   [k \in 1..Len(ins'[i][j]) |-> [t |-> ins'[i][j][k].t, ty |-> ins'[i][j][k].ty]]]],
-                                     groups |-> ref'.groups]))
+                                     lv |-> lv', groups |-> ref'.groups]))
 \* simulation: print every completed input configuration the walk touches
 EmitBuilt == ~(Built /\ ~started) \/
              PrintT("@@TR " \o ToJson([ins |-> [i \in Ids |-> [j \in 1..Len(ins[i]) |->
                                                   [k \in 1..Len(ins[i][j]) |-> [t |-> ins[i][j][k].t, ty |-> ins[i][j][k].ty]]]],
-                                       groups |-> ref.groups]))
+                                       lv |-> lv, groups |-> ref.groups]))
 =============================================================================
